@@ -18,6 +18,9 @@ from .c01 import _field_stores
 from . import c07
 
 
+from ..symx import show
+
+
 def run(ctx) -> None:
     ctx.rule("a.length-guard", "every store of a Table's column tuple is dominated by a guard that raises unless EVERY "
                                "incoming column has the table's length (construction: loop over all columns; replacement / "
@@ -217,67 +220,76 @@ def _length_guard_problem(it, S, conds, val) -> Optional[str]:
 
 
 def _length_field(ctx) -> None:
+    from ..sites2 import interp_of
     prog = ctx.prog
     storers = sorted({f.qualname for f, _, _ in _field_stores(prog, "_length")})
     ctx.ob("a.length-field", "package", "storers", storers == ["table.Table.__init__"], f"_length stored by {storers}",
            message=f"_length is stored by {storers}; only Table.__init__ may set it")
     f = prog.func("table.Table.__len__")
-    rets = [short(s.value) for s in walk_stmts(f.body) if isinstance(s, ast.Return)]
-    ctx.ob("a.length-field", f, "len", "self._length" in rets, f"__len__ returns {rets}", f.node,
-           message=f"Table.__len__ returns {rets}, never the recorded row count")
+    it = interp_of(prog, f)
+    rets = [e.term for e in it.events if e.kind == "return" and e.depth == 0]
+    want = ("attr", ("param", f.params[0]), "_length")
+    ctx.ob("a.length-field", f, "len", want in rets, f"__len__ returns {[show(r, it)[:30] for r in rets]}", f.node,
+           message=f"Table.__len__ returns {[show(r, it)[:30] for r in rets]}, never the recorded row count")
+
+
+def _length_changers(it, obj) -> List[str]:
+    """events that can change the length (or order) of list object `obj`"""
+    out = []
+    for e in it.events:
+        if e.kind == "call" and e.term[1][0] == "attr" and e.term[1][1] == obj and e.term[1][2] in MUTATING_BUILTIN:
+            out.append(f"`{show(e.term, it)[:50]}` changes the length/order of the work list")
+        elif e.kind == "store" and e.term[0] == "sub" and e.term[1] == obj and e.term[2][0] == "slice":
+            out.append(f"`{show(e.term, it)[:50]} = ...` (a slice store) can change the length of the work list")
+        elif e.kind == "del" and e.term[0] == "sub" and e.term[1] == obj:
+            out.append(f"`del {show(e.term, it)[:50]}` changes the length of the work list")
+        elif e.kind == "store" and e.term == obj and False:
+            pass
+    return out
 
 
 def _writes(ctx) -> None:
+    """Vector.__setitem__ and _promote store only storage that has, by construction, one element per element of the old storage -
+    on the symx store events (helpers in line)."""
+    from ..sites2 import comp_parts, interp_of, strip_seq
     prog = ctx.prog
     f = prog.func("vector.Vector.__setitem__")
-    d = Defs(f)
-    cfg = cfg_of(f)
-    stores = [s for s in walk_stmts(f.body) if isinstance(s, ast.Assign) and short(s.targets[0]) == "self._underlying"]
+    it = interp_of(prog, f)
+    SELF = ("param", f.params[0])
+    und = ("attr", SELF, "_underlying")
+    stores = [e for e in it.events if e.kind == "store" and e.term == und]
+    if not stores:
+        raise AnalysisError("Vector.__setitem__: no store of self._underlying found")
     problems = []
-    if len(stores) != 1:
-        raise AnalysisError("Vector.__setitem__: expected one store of self._underlying")
-    v = d.resolve(stores[0].value)
-    if not (isinstance(v, ast.Call) and short(v.func) == "tuple" and isinstance(v.args[0], ast.Name)):
-        problems.append(f"the new storage is `{short(v)}`, not tuple(<work list>)")
-    else:
-        wl = v.args[0].id
-        src = d.single(wl)
-        if not (isinstance(src, ast.Call) and short(src.func) == "list" and len(src.args) == 1):
-            problems.append(f"the work list `{wl}` is `{short(src) if src is not None else 'rebound'}`, not list(<old storage>)")
-        else:
-            base = src.args[0]
-            from ..cfg import reaching_defs
-            defs = reaching_defs(cfg, base.id, cfg.node_of(d.assigns[wl][0][1])) if isinstance(base, ast.Name) else [base]
-            if not all(isinstance(x, ast.Attribute) and short(x) == "self._underlying" for x in defs):
-                problems.append(f"the work list is copied from `{short(base)}` which is not (only) self._underlying")
-        for n in walk_no_nested(f.node):
-            if isinstance(n, ast.Call) and isinstance(n.func, ast.Attribute) and short(n.func.value) == wl \
-                    and n.func.attr in MUTATING_BUILTIN:
-                problems.append(f"`{short(n, 50)}` changes the length/order of the work list")
-        for s in walk_stmts(f.body):
-            tg = s.targets if isinstance(s, ast.Assign) else [s.target] if isinstance(s, ast.AugAssign) else s.targets if isinstance(s, ast.Delete) else []
-            for t in tg:
-                if isinstance(t, ast.Subscript) and short(t.value) == wl:
-                    if isinstance(s, ast.Delete) or isinstance(t.slice, ast.Slice):
-                        problems.append(f"`{short(s, 50)}` can change the length of the work list")
-                    elif not isinstance(t.slice, ast.Name):
-                        problems.append(f"`{short(s, 50)}` writes a computed position")
+    for e in stores:
+        v = strip_seq(it, e.value)
+        if not (v[0] == "obj" and it.objs[v[1]].kind == "list" and isinstance(it.objs[v[1]].node, ast.Call)):
+            problems.append(f"the new storage is `{show(e.value, it)[:60]}`, not tuple(<work list copied from the old storage>)")
+            continue
+        init = it.objs[v[1]].init
+        if not (len(init) == 1 and strip_seq(it, init[0]) == und):
+            problems.append(f"the work list is copied from `{show(init[0], it)[:40] if init else '?'}` which is not self._underlying")
+        problems += _length_changers(it, v)
     ctx.ob("b.write-keeps-length", f, "setitem", not problems, "new storage = tuple(list(old)) with single-position assignments only",
-           stores[0], message="; ".join(problems))
+           stores[0].node, message="; ".join(problems[:3]))
     f = prog.func("vector.Vector._promote")
+    it = interp_of(prog, f)
+    SELF = ("param", f.params[0])
+    und = ("attr", SELF, "_underlying")
     problems = []
     n = 0
-    for s in walk_stmts(f.body):
-        if isinstance(s, ast.Assign) and isinstance(s.value, ast.Call) and short(s.value.func) == "tuple" and s.value.args:
-            g = s.value.args[0]
-            n += 1
-            if not (isinstance(g, ast.GeneratorExp) and len(g.generators) == 1 and not g.generators[0].ifs
-                    and short(g.generators[0].iter) == "self._underlying"):
-                problems.append(f"`{short(s, 80)}` does not rebuild from ALL elements of self._underlying: the column would change length")
+    for e in it.events:
+        if not (e.kind == "store" and e.term == und):
+            continue
+        n += 1
+        cp = comp_parts(it, e.value)
+        if cp is None or len(cp[0]) != 1 or cp[1] or it.loops[cp[0][0]].iter not in (und, SELF):
+            problems.append(f"`self._underlying = {show(e.value, it)[:70]}` does not rebuild from ALL elements of self._underlying: the "
+                            f"column would change length")
     if n == 0:
-        raise AnalysisError("_promote: no tuple rebuild found")
+        raise AnalysisError("_promote: no rebuild of the storage found")
     ctx.ob("b.write-keeps-length", f, "promote", not problems, f"{n} conversions, each over all elements, unfiltered", f.node,
-           message="; ".join(problems))
+           message="; ".join(problems[:2]))
 
 
 def _rows(ctx) -> None:
@@ -371,73 +383,148 @@ def _row_view(ctx) -> None:
            message="Table.__iter__ does not yield set_index(i) for i in range(len(self)) on a Row of this table")
 
 
+def _result_sites(prog, f, kinds):
+    """construction sites of f whose value IS what f returns (on some path)"""
+    from ..sites2 import all_sites2, interp_of, leaves
+    it = interp_of(prog, f)
+    returned = {t for e in it.events if e.kind == "return" and e.depth == 0 for t in leaves(e.term)}
+    return [st for st in all_sites2(prog) if st.top is f and st.it is it and st.kind in kinds and st.call in returned]
+
+
 def _structural(ctx) -> None:
+    """>> / << / .T / t[i] on the symx returns and construction sites (helpers in line)."""
+    from ..sites2 import all_sites2, comp_parts, interp_of, leaves, strip_seq
+    from ..symx import flatten_conds, subterms
     prog = ctx.prog
     f = prog.func("table.Table.__rshift__")
+    it = interp_of(prog, f)
+    SELF, OTHER = ("param", f.params[0]), ("param", f.params[1])
+    existing = (("call", ("attr", SELF, "cols"), (), ()), ("attr", SELF, "_underlying"))
     probs = []
-    for s in walk_stmts(f.body):
-        if isinstance(s, ast.Return) and isinstance(s.value, ast.Call) and short(s.value.func) in ("Vector", "Table") and s.value.args:
-            a = s.value.args[0]
-            if isinstance(a, ast.BinOp) and isinstance(a.op, ast.Add):
-                if short(a.left) not in ("self.cols()", "tuple(self._underlying)"):
-                    probs.append(f"`{short(s.value, 70)}` does not keep ALL existing columns first, in order")
-            elif short(a) != "(other,)":
-                probs.append(f"`{short(s.value, 70)}` is not existing columns + new columns")
-    ctx.ob("e.structural-ops", f, ">>", not probs, ">> = existing columns + appended columns", f.node, message="; ".join(probs))
+    n = 0
+    for st in _result_sites(prog, f, ("Vector", "Table", "cls")):
+        n += 1
+        for d in leaves(st.data):
+            d = strip_seq(it, d) if d[0] != "bin" else d
+            if d[0] == "bin" and d[1] == "Add":
+                if strip_seq(st.it, d[2]) not in existing:
+                    probs.append(f"`{st.sh(st.call, 70)}` does not keep ALL existing columns first, in order")
+            elif d == ("tuple", (OTHER,)):
+                if not any(t == SELF and not pol for t, pol in flatten_conds(st.ev.conds)):
+                    probs.append(f"`{st.sh(st.call, 70)}` drops the existing columns of a non-empty table")
+            else:
+                probs.append(f"`{st.sh(st.call, 70)}` is not existing columns + new columns")
+    if not n:
+        raise AnalysisError("Table.__rshift__: no result construction found")
+    ctx.ob("e.structural-ops", f, ">>", not probs, ">> = existing columns + appended columns", f.node, message="; ".join(probs[:2]))
     f = prog.func("table.Table.__lshift__")
+    it = interp_of(prog, f)
+    SELF, OTHER = ("param", f.params[0]), ("param", f.params[1])
+    cols_s = ("call", ("attr", SELF, "cols"), (), ())
     probs = []
-    rets = [s for s in walk_stmts(f.body) if isinstance(s, ast.Return)]
-    for r in rets:
-        c = r.value.args[0].args[0] if (isinstance(r.value, ast.Call) and r.value.args and isinstance(r.value.args[0], ast.Call)
-                                        and r.value.args[0].args) else None
-        if not (isinstance(c, ast.GeneratorExp) and cshort(c).startswith("(_0 << _1 for _0, _1 in zip(self.cols(), ") and isinstance(c.generators[0].iter, ast.Call)
-                and short(c.generators[0].iter.func) == "zip" and short(c.generators[0].iter.args[0]) == "self.cols()"
-                and kwarg(c.generators[0].iter, "strict") is not None and not c.generators[0].ifs):
-            probs.append(f"`{short(r.value, 70)}` is not `x << y` over zip(self.cols(), <rows>, strict=True)")
-    guards = [s for s in f.body if isinstance(s, ast.If) or isinstance(s, ast.If)]
-    width = [s for s in walk_stmts(f.body) if isinstance(s, ast.If) and "len(self.cols()) !=" in short(s.test)
-             and any(isinstance(b, ast.Raise) for b in s.body)]
-    if len(width) < len(rets):
-        probs.append("a << branch has no column-count guard")
-    ctx.ob("e.structural-ops", f, "<<", not probs and bool(rets), "<< appends per column after a width check", f.node, message="; ".join(probs))
+    n = 0
+    for st in _result_sites(prog, f, ("Vector", "Table", "cls")):
+        n += 1
+        for d in leaves(st.data):
+            cp = comp_parts(st.it, d)
+            if cp is None or len(cp[0]) != 1:
+                probs.append(f"`{st.sh(st.call, 70)}` is not one `col << cells` per column")
+                continue
+            (L,), extra, v, ev = cp
+            lp = st.it.loops[L]
+            doms = tuple(lp.domain[1]) if lp.domain is not None and lp.domain[0] == "tuple" else ()
+            if len(doms) != 2 or strip_seq(st.it, doms[0]) not in (cols_s, ("attr", SELF, "_underlying")) or extra:
+                probs.append(f"`{st.sh(st.call, 70)}` is not `x << y` over zip(self.cols(), <rows>)")
+                continue
+            x, y = ("elem", doms[0], L), ("elem", doms[1], L)
+            if v != ("bin", "LShift", x, y):
+                probs.append(f"per-column append is `{show(v, st.it)[:50]}`, expected `col << cells`")
+            ln = lambda c: ("call", ("name", "len"), (c,), ())
+            fc = flatten_conds(ev.conds)
+            if not any(pol and t[0] == "cmp" and t[1] == "Eq" and {t[2], t[3]} == {ln(doms[0]), ln(doms[1])} for t, pol in fc):
+                probs.append("a << branch has no column-count guard")
+    ctx.ob("e.structural-ops", f, "<<", not probs and n > 0, "<< appends per column after a width check", f.node, message="; ".join(probs[:2]))
     # Vector.__lshift__ (the per-column append): a string is ONE cell, never a sequence of cells
     vl = prog.func("vector.Vector.__lshift__")
+    it = interp_of(prog, vl)
+    SELF, OTHER = ("param", vl.params[0]), ("param", vl.params[1])
     other = vl.params[1]
     probs = []
-    excl = f"not isinstance({other}, (str, bytes, bytearray))"
-    for n in walk_no_nested(vl.node):
-        if isinstance(n, ast.Call) and short(n) == f"isinstance({other}, Iterable)":
-            par = prog.parent(n)
-            if not (isinstance(par, ast.BoolOp) and isinstance(par.op, ast.And) and any(short(v) == excl for v in par.values)):
-                probs.append(f"`{short(par, 60)}` treats every Iterable as a sequence of cells: a str/bytes cell would be split into characters")
-    rets = [short(s.value, 120) for s in walk_stmts(vl.body) if isinstance(s, ast.Return)]
-    if not any(f"({other},)" in r for r in rets):
+    one_cell = False
+    n = 0
+
+    def excluded(conds) -> bool:
+        for t, pol in flatten_conds(conds):
+            if (not pol) and t[0] == "call" and t[1] == ("name", "isinstance") and len(t[2]) == 2 and t[2][0] == OTHER:
+                names = {x[1] for x in subterms(t[2][1]) if x[0] == "name"}
+                if {"str", "bytes"} <= names:
+                    return True
+        return False
+    for st in _result_sites(prog, vl, ("Vector", "cls", "copy")):
+        n += 1
+        for d in leaves(st.data):
+            parts = []
+            stack = [d]
+            while stack:
+                t = stack.pop()
+                if t[0] == "bin" and t[1] == "Add":
+                    stack += [t[3], t[2]]
+                else:
+                    parts.append(t)
+            if not parts or strip_seq(st.it, parts[0]) != ("attr", SELF, "_underlying"):
+                probs.append(f"`{st.sh(st.call, 60)}` does not keep the existing elements first")
+            for t in parts[1:]:
+                if t == ("tuple", (OTHER,)):
+                    one_cell = True
+                elif strip_seq(st.it, t) == OTHER and t != OTHER or (t[0] == "obj" and any(
+                        st.it.loops[L].iter == OTHER for e in st.it.events if e.kind == "elem" and e.term == t for L in e.loops)):
+                    if not excluded(st.ev.conds):
+                        probs.append(f"`{st.sh(st.call, 60)}` spreads `{other}` into cells without the str/bytes exclusion: a str/bytes "
+                                     f"cell would be split into characters")
+    if not n:
+        raise AnalysisError("Vector.__lshift__: no result construction found")
+    if not one_cell:
         probs.append("a scalar (or string) is not appended as ONE element")
-    for s_ in walk_stmts(vl.body):
-        if isinstance(s_, ast.Return) and f"tuple({other})" in short(s_.value, 200):
-            from ..sites import Resolver
-            gs = Resolver(prog, vl).guards(s_)
-            if not any(pol and excl in short(t) for t, pol in gs):
-                probs.append(f"`{short(s_, 60)}` spreads `{other}` into cells without the str/bytes exclusion")
     ctx.ob("e.structural-ops", vl, "append-cell", not probs, "<< spreads only real sequences; strings and scalars are one cell", vl.node,
-           message="Vector.__lshift__: " + "; ".join(probs))
+           message="Vector.__lshift__: " + "; ".join(probs[:2]))
     g = prog.func("table.Table.T")
+    it = interp_of(prog, g)
+    SELF = ("param", g.params[0])
     probs = []
-    loops = [s for s in walk_stmts(g.body) if isinstance(s, ast.For)]
-    if len(loops) != 1:
-        raise AnalysisError("Table.T: row loop not found")
-    lp = loops[0]
-    d = Defs(g)
-    r = lp.iter
-    if not (isinstance(r, ast.Call) and short(r.func) == "range" and len(r.args) == 1 and short(d.resolve(r.args[0])) == "self._length"):
-        probs.append(f"rows range over `{short(r)}`, not range(self._length)")
-    cell = [n for n in walk_no_nested(lp) if isinstance(n, ast.GeneratorExp)]
-    if not (cell and cshort(cell[0]) == f"(_0[{lp.target.id}] for _0 in self._underlying)"):
-        probs.append(f"row i is built from `{short(cell[0]) if cell else '?'}`, not from col[i] for all columns")
-    ctx.ob("e.structural-ops", g, ".T", not probs, "row i of .T = cells [i] of all columns", lp, message="; ".join(probs))
-    ctx.ob("e.structural-ops", prog.func("table.Table.__getitem__"), "int-row", any(
-        isinstance(s, ast.Return) and short(s.value) == "Row(self, key)" for s in walk_stmts(prog.func("table.Table.__getitem__").body)),
-        "t[i] is Row(self, i)", message="Table.__getitem__(int) no longer returns Row(self, key)")
+    n = 0
+    for st in _result_sites(prog, g, ("Table",)):
+        n += 1
+        for d in leaves(st.data):
+            cp = comp_parts(st.it, d)
+            if cp is None or len(cp[0]) != 1 or cp[1]:
+                probs.append(f"`{st.sh(st.call, 60)}`: not one row per row index")
+                continue
+            (L,), extra, v, ev = cp
+            lp = st.it.loops[L]
+            if lp.range is None or lp.range[0] != ("const", "int", 0) or lp.range[1] != ("attr", SELF, "_length") or lp.range[2] != ("const", "int", 1):
+                probs.append(f"rows range over `{show(lp.iter, st.it)[:40]}`, not range(self._length)")
+                continue
+            cells = [a for a in (v[2] if v[0] == "call" else ()) ]
+            inner = comp_parts(st.it, cells[0]) if cells else None
+            if inner is None or len(inner[0]) != 1 or inner[1]:
+                probs.append(f"row i is built from `{show(v, st.it)[:50]}`, not from col[i] for all columns")
+                continue
+            (L2,), _, cv, _ = inner
+            src = st.it.loops[L2].iter
+            if strip_seq(st.it, src) not in (("attr", SELF, "_underlying"), ("call", ("attr", SELF, "cols"), (), ())) \
+                    or cv != ("sub", ("elem", src, L2), ("idx", L)):
+                probs.append(f"row i is built from `{show(cv, st.it)[:50]}`, not from col[i] for all columns")
+    if not n:
+        raise AnalysisError("Table.T: no transposed Table construction found")
+    ctx.ob("e.structural-ops", g, ".T", not probs, "row i of .T = cells [i] of all columns", g.node, message="; ".join(probs[:2]))
+    gi = prog.func("table.Table.__getitem__")
+    it = interp_of(prog, gi)
+    KEY = ("param", gi.params[1])
+    keys = (KEY, ("call", ("attr", ("param", gi.params[0]), "_check_duplicate"), (KEY,), ()))
+    ctx.ob("e.structural-ops", gi, "int-row", any(e.kind == "return" and e.term[0] == "call" and e.term[1] == ("name", "Row")
+                                                  and len(e.term[2]) == 2 and e.term[2][0] == ("param", gi.params[0]) and e.term[2][1] in keys
+                                                  for e in it.events),
+           "t[i] is Row(self, i)", message="Table.__getitem__(int) no longer returns Row(self, key)")
 
 
 _T, _V = "table", "vector"
